@@ -129,6 +129,29 @@ func TestVerif_C07(t *testing.T) {
 	if t.Failed() {
 		return
 	}
+	if vfOnlySub("procfs") && !vfReplayMode() && vfShard() == 0 {
+		n, err := vfProcfs(func(path string, content []byte, viaFile *MIME, derr error) error {
+			h := vfHeader(content, defaultLimit)
+			textLike := vfBOM(h) != "" || !vfHasBin(h)
+			if derr != nil || viaFile == nil {
+				return fmt.Errorf("DetectFile(%s) = (%v, %v)", path, viaFile, derr)
+			}
+			if vfInFamily(viaFile, "text/plain") && !textLike {
+				return fmt.Errorf("DetectFile(%s): text/plain in hierarchy (%s) but the first %d bytes of the file hold binary-data bytes: %s", path, vfChainStr(viaFile), len(h), vfQ(h))
+			}
+			if textLike && viaFile.Parent() == nil {
+				return fmt.Errorf("DetectFile(%s): the file's header has no binary-data byte but the result is the bare root", path)
+			}
+			return nil
+		})
+		var r vfResult
+		r.Nontrivial, r.Labels, r.Hash, r.Err = n > 0, []string{"procfs"}, vfHash([]byte("procfs")), err
+		vfStats.record(r, func() any { return map[string]any{"sub": "procfs", "files": n} })
+		if err != nil {
+			vfEnumFail(t, "C07", "gen", c07Case{X: vfB("procfs")}, err)
+			return
+		}
+	}
 	if vfOnlySub("enum") {
 		vfRun(t, vfSub[c07Case]{Prop: "C07", Name: "enum", Check: c07Check})
 		if !vfReplayMode() && !t.Failed() {
